@@ -320,6 +320,17 @@ def oracle(case, out):
         if out.startswith("err"):
             return None   # recorded as observation in notes (whitespace-only option string); not part of the property text
         kind, iv = out.split()
+        opt = case["opt"]
+        if isinstance(opt, str) and opt.split():
+            want = {"INIT": "i", "EXPIRE": "x", "EVERY": "e"}.get(opt.split()[0].upper())
+            if want and want != kind:
+                return f"option {opt!r} parsed as tracker type {kind!r}, the word says {want!r}"
+            if want and len(opt.split()) > 1 and opt.split()[1].isascii() and opt.split()[1].isdigit():
+                m = min(max(int(opt.split()[1]), 1), 1440) * 1000
+                if int(iv) != m:
+                    return f"option {opt!r} parsed with interval {int(iv) / 1000} min"
+        if isinstance(opt, TrackerOptions) and KIND[opt.tracker_type] != kind:
+            return f"TrackerOptions {opt!r} parsed as tracker type {kind!r}"
         if not (1000 <= int(iv) <= 1_440_000):
             # an out-of-range default can only come from an out-of-range *default* passed through unclamped
             return f"parsed interval {int(iv) / 1000} min outside 1..1440"
@@ -335,6 +346,8 @@ def oracle(case, out):
     need_init = [False] * n       # a (re)connection / registration owes one read
     last_update = [None] * n      # time of the last state telegram seen while tracked (for 'expire')
     last_read = [None] * n        # time the previous read was issued
+    next_due = [None] * n         # when the next periodic read is due (set when the tracker's own read completes / on update)
+    own = [None] * n              # index into `inflight` bookkeeping: the read the tracker is waiting for (its issue time)
     init_done = [False] * n
     reads_since_start = [0] * n
     stopped_at = None
@@ -354,6 +367,9 @@ def oracle(case, out):
                 for i in range(n):
                     if need_init[i] and reg[i]:
                         return f"value {i}: no read although it is registered, connected since {now} us and fewer than two reads are in progress (event #{idx})"
+                    if reg[i] and next_due[i] is not None and next_due[i] < t:
+                        return (f"value {i} ({cfg[i][0]} {cfg[i][1] / MIN} min): periodic read was due at {next_due[i]} us, none issued by {t} us "
+                                f"although fewer than two reads are in progress (event #{idx})")
             now = t
         elif k == "B":
             listening = True
@@ -364,6 +380,8 @@ def oracle(case, out):
             listening = False
             started = False
             need_init = [False] * n
+            next_due = [None] * n
+            own = [None] * n
         elif k == "C":
             c = int(e[1])
             connected = c == 2
@@ -375,6 +393,8 @@ def oracle(case, out):
                     started = False
                     stopped_at = now
                     need_init = [False] * n
+                    next_due = [None] * n
+                    own = [None] * n
         elif k == "G":
             i = int(e[1])
             reg[i] = True
@@ -385,6 +405,8 @@ def oracle(case, out):
             i = int(e[1])
             reg[i] = False
             need_init[i] = False
+            next_due[i] = None
+            own[i] = None
         elif k == "U":
             i = int(e[1])
             if started and reg[i]:
@@ -393,6 +415,8 @@ def oracle(case, out):
                     # an 'expire' tracker restarts its timer on every state update; an initial read that was still waiting
                     # for a free read slot is dropped (the state is known now)
                     need_init[i] = False
+                    next_due[i] = now + cfg[i][1]
+                    own[i] = None
         elif k == "R":
             if e[1] == "?":
                 return f"GroupValueRead for an address that is no state address (event #{idx})"
@@ -406,6 +430,7 @@ def oracle(case, out):
                 return f"value {i} is read while it is not registered (event #{idx})"
             if len(inflight) >= 2:
                 return f"value {i} is read while two reads are already in progress {[(a, b) for a, b in inflight]} (event #{idx})"
+            need_init_was = need_init[i]
             if need_init[i]:
                 need_init[i] = False
             else:
@@ -418,6 +443,8 @@ def oracle(case, out):
                     return (f"value {i} ({'expire' if kind == 'x' else 'every'} {iv / MIN} min) is read again {now - last_read[i]} us "
                             f"after its previous read (event #{idx})")
             last_read[i] = now
+            next_due[i] = None
+            own[i] = (now, need_init_was)
             inflight.append([i, now])
         elif k == "D":
             if e[1] == "?":
@@ -425,6 +452,11 @@ def oracle(case, out):
             i = int(e[1])
             for j, (a, _b) in enumerate(inflight):
                 if a == i:
+                    if own[i] is not None and own[i][0] == _b and started and reg[i]:
+                        # the tracker's own read completed: an init tracker is finished, the others sleep one interval
+                        if not (cfg[i][0] == "i" and own[i][1]):
+                            next_due[i] = now + cfg[i][1]
+                        own[i] = None
                     inflight.pop(j)
                     break
     return None
